@@ -113,3 +113,65 @@ Print Assumptions C20_admits_list_with_star.
 Theorem C20_near_miss_not_admitted : admits (bs "application/vnd.ipld.carx") = false.
 Proof. exact admits_near_miss_suffix. Qed.
 Print Assumptions C20_near_miss_not_admitted.
+
+(* ================================================================================================ *)
+(* the 400 decision made concrete: [body] is no longer given, it is what request.Decode — modelled by
+   MessageBytes.decode_message on the request's BYTES — makes of them.  [execute] now takes the decoded
+   message (root link, execute list / report, block table).  The abstract theorems above are unchanged. *)
+From Ucanto Require Import Varint Ipld Cbor Formats Blockstore MessageFormat Cid Car MessageBytes.
+
+(* acceptable headers, bytes that are not a decodable agent message -> 400, no handler runs *)
+Theorem C20_bytes_400 : forall mh_digest hdr_oracle (call : Type)
+    (execute : decoded -> list call * option decoded) (cts accs : list bstr) (b : bstr),
+  hget cts = car_type -> admits_spec (hjoin accs) ->
+  decode_message mh_digest hdr_oracle b = None ->
+  handle_bytes mh_digest hdr_oracle call execute cts accs b = (Response 400%Z None None, []).
+Proof. exact handle_bytes_400. Qed.
+Print Assumptions C20_bytes_400.
+
+(* acceptable headers, bytes that decode to d, Execute succeeds on d -> 200 with Execute's reply *)
+Theorem C20_bytes_200 : forall mh_digest hdr_oracle (call : Type)
+    (execute : decoded -> list call * option decoded) (cts accs : list bstr) (b : bstr) d calls r,
+  hget cts = car_type -> admits_spec (hjoin accs) ->
+  decode_message mh_digest hdr_oracle b = Some d -> execute d = (calls, Some r) ->
+  handle_bytes mh_digest hdr_oracle call execute cts accs b = (Response 200%Z (Some car_type) (Some r), calls).
+Proof. exact handle_bytes_200. Qed.
+Print Assumptions C20_bytes_200.
+
+(* if any handler ran, the headers were acceptable and the bytes decoded; the calls are Execute's on
+   exactly the decoded message *)
+Theorem C20_bytes_runs_only_decodable : forall mh_digest hdr_oracle (call : Type)
+    (execute : decoded -> list call * option decoded) (cts accs : list bstr) (b : bstr),
+  snd (handle_bytes mh_digest hdr_oracle call execute cts accs b) <> [] ->
+  hget cts = car_type /\ admits_spec (hjoin accs) /\
+  exists d, decode_message mh_digest hdr_oracle b = Some d /\
+            snd (handle_bytes mh_digest hdr_oracle call execute cts accs b) = fst (execute d).
+Proof. exact handle_bytes_calls. Qed.
+Print Assumptions C20_bytes_runs_only_decodable.
+
+(* a request written by the library's encoder for message m is executed as m *)
+Theorem C20_bytes_roundtrip : forall mh_digest hdr_oracle (call : Type)
+    (execute : decoded -> list call * option decoded) (cts accs : list bstr) m root blocks calls r,
+  hget cts = car_type -> admits_spec (hjoin accs) ->
+  wf_ipld (message_ipld m) = true -> in_budget (message_ipld m) = true ->
+  roots_ok 1 [root] -> Forall (block_ok mh_digest) blocks ->
+  tbl_get (tbl_of blocks) root = Some (message_bytes m) ->
+  msg_root_ok mh_digest root (message_bytes m) ->
+  execute (mkDecoded root (canon_msg m) (run_puts bstr bstr beq blocks)) = (calls, Some r) ->
+  handle_bytes mh_digest hdr_oracle call execute cts accs (car_encode [root] blocks)
+  = (Response 200%Z (Some car_type) (Some r), calls).
+Proof. exact handle_bytes_roundtrip. Qed.
+Print Assumptions C20_bytes_roundtrip.
+
+(* one damaged section anywhere in the body: 400, nothing runs *)
+Theorem C20_bytes_bad_block : forall mh_digest hdr_oracle (call : Type)
+    (execute : decoded -> list call * option decoded) (cts accs : list bstr) roots bs1 c d' bs2,
+  hget cts = car_type -> admits_spec (hjoin accs) ->
+  roots_ok 1 roots -> Forall (block_ok mh_digest) bs1 -> Forall (block_ok mh_digest) bs2 ->
+  cid_wf c -> N.of_nat (length (c ++ d')) <= max_section ->
+  cid_sum mh_digest (cid_prefix c) d' <> Some c ->
+  handle_bytes mh_digest hdr_oracle call execute cts accs
+    (car_encode roots bs1 ++ section (c, d') ++ flat_map section bs2)
+  = (Response 400%Z None None, []).
+Proof. exact handle_bytes_bad_block. Qed.
+Print Assumptions C20_bytes_bad_block.
